@@ -216,6 +216,13 @@ def classify(entries: List[dict], query: str, kind: str, detail: str = "") -> Op
         q = parse(query)
     except SyntaxError:
         return None
+    try:
+        # the shape predicates compare expressions by their text: give every lambda parameter its own name first, so that two
+        # different variables that merely share a name are not taken for one
+        from . import variants as V
+        q, _ = V.alpha_rename_distinct(q)
+    except Exception:
+        pass
     for e in entries:
         pred = PREDICATES.get(e.get("classifier", ""))
         if pred is None:
